@@ -532,7 +532,7 @@ macro_rules! family {
                 let rsegs: Vec<String> = p.segments().rev().map(|s| hex(bytes_of(s))).collect();
                 let nsegs: Vec<String> = p.normalized_segments().map(|s| hex(bytes_of(s))).collect();
                 format!(
-                    "e={} a={} n={} first={} last={} fn={} dir={} par={} poe={} nlen={} segs=[{}] rsegs=[{}] nsegs=[{}] norm={}",
+                    "e={} a={} n={} first={} last={} fn={} dir={} par={} poe={} nlen={} segs=[{}] rsegs=[{}] nsegs=[{}] norm={} norm2={}",
                     b01(p.is_empty()),
                     b01(p.is_absolute()),
                     p.segment_count(),
@@ -547,6 +547,7 @@ macro_rules! family {
                     rsegs.join(","),
                     nsegs.join(","),
                     hex(p.normalized().as_bytes()),
+                    hex(p.normalized().normalized().as_bytes()),
                 )
             }
 
@@ -580,8 +581,9 @@ macro_rules! family {
                     let c = a.cmp(b);
                     let eo = ao == bo;
                     let co = ao.cmp(&bo);
+                    let h = trace(a) == trace(b);
                     if e == eo && c == co {
-                        Some(format!("{} {}", b01(e), ord(c)))
+                        Some(format!("{} {} {}", b01(e), ord(c), b01(h)))
                     } else {
                         Some(format!("OWNED-DIFFERS {} {} {} {}", b01(e), ord(c), b01(eo), ord(co)))
                     }
@@ -602,7 +604,7 @@ macro_rules! family {
                         let (Some(ai), Some(bi)) = (conv(a), conv(b)) else { return Some("invalid".into()) };
                         let Ok(a) = Path::new(ai) else { return Some("invalid".into()) };
                         let Ok(b) = Path::new(bi) else { return Some("invalid".into()) };
-                        Some(format!("{} {}", b01(a == b), ord(a.cmp(b))))
+                        Some(format!("{} {} {}", b01(a == b), ord(a.cmp(b)), b01(trace(a) == trace(b))))
                     }
                     // a full value against a reference, both directions
                     "fullref" => {
